@@ -1076,7 +1076,12 @@ func convertZToMinAltitudekey(inputIndex int64, inputZoom int64, outputZoom int6
 	// 2. Calculate outputIndex
 	outputIndex := common.CalculateArithmeticShift(inputIndex, -(inputZoom - consts.ZOriginValue))
 	outputIndex += zBaseOffset
+	scaledIndex := outputIndex
 	outputIndex = common.CalculateArithmeticShift(outputIndex, (outputZoom - zBaseExponent))
+	if common.CalculateArithmeticShift(outputIndex, -(outputZoom-zBaseExponent)) != scaledIndex && outputZoom > zBaseExponent {
+		// 左シフトで64bit整数の範囲を超えた場合、出力インデックスは出力ズームレベルに存在しない
+		return 0, errors.NewSpatialIdError(errors.InputValueErrorCode, "output index does not exist with given outputZoom, zBaseExponent, and zBaseOffset")
+	}
 
 	// 3. Check to make sure outputIndex exists in the output system
 	_, ok = validateIndexExists(outputIndex, outputZoom, false)
